@@ -68,6 +68,9 @@ type Exec struct {
 	spec                 int
 	qseq                 int
 	havocAllOnCall       bool
+	publishSeen          bool
+	privateRefs          []privateRef
+	curArgs              []*Val
 	rangeOf              map[*ssa.Range]types.Type
 	distinct             map[[2]int]bool
 	freshSet             map[int]bool
